@@ -171,11 +171,11 @@ func cmdCheck(args []string) int {
 					rep.Res = &VerifyResult{Key: k, Aborted: "contract names a function that does not exist in the current tree"}
 				} else {
 					p := prop
-					if dep {
+					if dep || os.Getenv("GOVC_LABELONLY") == "" {
 						p = "" // every clause of a function the property's proof relies on
 					}
 					x := NewExec(prog, fn, p)
-					if dep {
+					if dep || os.Getenv("GOVC_LABELONLY") == "" {
 						x.depOf = prop
 					}
 					x.findings = ff.Findings
@@ -582,7 +582,8 @@ func cmdCheck(args []string) int {
 			"inlined_without_contract": sortedKeys(inlined), "contracts_used_at_call_sites": sortedKeys(used),
 			"unmodelled_calls": sortedKeys(unmodelled), "engine_warnings": sortedKeys(warnings),
 			"engine_errors": engineErrors,
-			"dependency_closure": map[string]interface{}{"what": "callee contracts used by the proofs that carry no clause of this property: verified here too, all clauses, transitively", "functions": append([]string{}, depKeys...), "findings_of_other_properties_met": depFindings},
+			"all_clauses_of_selected_functions": os.Getenv("GOVC_LABELONLY") == "",
+			"dependency_closure": map[string]interface{}{"what": "labels select the functions a property depends on; every clause of those functions is verified (callers assume all of them), and callee contracts used by the proofs that carry no clause of this property are verified here too, transitively", "functions": append([]string{}, depKeys...), "findings_of_other_properties_met": depFindings},
 			"renamed_variables_recovered": append([]string{}, prog.RenameNotes...),
 			"bounded":       boundedEvidence, "structural": structuralEvidence,
 			"traces_validated_against_impl": sc.Validated,
